@@ -132,7 +132,14 @@ class Ctx:
         return res
 
     def sample_lines(self, path, n, total):
-        """Seeded sample of n of the total lines of an NDJSON file: [(1-based line number, parsed JSON)]."""
+        """Seeded, feature-covering sample of n of the total lines of an NDJSON file: [(1-based line number, parsed JSON)]
+        (see sample_lines_stratified; files of more than 60000 lines are first thinned out uniformly)."""
+        if total <= n:
+            return self.sample_lines_uniform(path, n, total)
+        return self.sample_lines_stratified(path, n, total)
+
+    def sample_lines_uniform(self, path, n, total):
+        """Seeded uniform sample of n of the total lines of an NDJSON file: [(1-based line number, parsed JSON)]."""
         if total <= n:
             pick = None
         else:
@@ -150,13 +157,16 @@ class Ctx:
         features seen fewer than `cover` times so far, then the sample is filled up at random.  Rare kinds of
         scenario are thereby always represented."""
         if total <= n:
-            return self.sample_lines(path, n, total)
+            return self.sample_lines_uniform(path, n, total)
         key = key or hist_features
-        feats = []
+        cap = max(60000, 3 * n)
+        keep = None if total <= cap else set(self.rng.sample(range(total), cap))
+        feats = {}
         with open(path) as f:
-            for line in f:
-                feats.append(sorted(key(json.loads(line))))
-        idx = list(range(len(feats)))
+            for i, line in enumerate(f):
+                if keep is None or i in keep:
+                    feats[i] = sorted(key(json.loads(line)))
+        idx = sorted(feats)
         self.rng.shuffle(idx)
         seen, pick = {}, []
         for i in idx:
@@ -357,29 +367,62 @@ class Ctx:
 
 
 def hist_features(h):
-    """Shape of a TLC-emitted history (list of {t,k,o,f}): which faults and environment steps occur, what surrounds
-    each environment step, and how often (capped at 2) each kind of call occurs within one reconcile."""
-    if isinstance(h, dict):
-        h = h.get("hist", [])
+    """Features of an emitted scenario, for feature-covering sampling.
+    * a history of {t,k,o,f} entries (one call / environment step each): which faults and environment steps occur
+      (with the class of their target), what surrounds each environment step, how often (capped at 2) each kind of
+      call occurs within one reconcile;
+    * a schedule of {p,op,seg,r} entries (one segment of one actor each): which segments with which results occur and
+      which pairs of segments of DIFFERENT actors are adjacent (the interleavings);
+    * a vector (a record of inputs): every field=value, one level deep - pairs of them give pairwise input coverage."""
+    if isinstance(h, dict) and isinstance(h.get("hist"), list):
+        h = h["hist"]
     sig = set()
+    if isinstance(h, dict):
+        for k, v in h.items():
+            if isinstance(v, dict):
+                for k2, v2 in v.items():
+                    if not isinstance(v2, (dict, list)):
+                        sig.add("%s.%s=%s" % (k, k2, v2))
+            elif isinstance(v, list):
+                sig.add("%s#%d" % (k, min(len(v), 3)))
+            else:
+                sig.add("%s=%s" % (k, v))
+        return sig
     block = {}
 
     def flush():
         for k, c in block.items():
             sig.add("%sx%d" % (k, min(c, 2)))
         block.clear()
+    prev_tok, prev_actor = None, None
     for i, e in enumerate(h):
+        if not isinstance(e, dict):
+            continue
+        if "op" in e:       # schedule style
+            tok = "%s.%s:%s" % (e.get("op"), e.get("seg", ""), e.get("r", ""))
+            actor = e.get("p", e.get("a"))
+            sig.add(tok)
+            if prev_tok is not None and actor != prev_actor:
+                sig.add(prev_tok + ">" + tok)
+            prev_tok, prev_actor = tok, actor
+            continue
         t, k, f = e.get("t", ""), str(e.get("k", "")), str(e.get("f", ""))
+        o = str(e.get("o", ""))
+        if t == "call" and o:
+            k = k + "." + o.rstrip("0123456789")     # the call's target class: update.xr / update.o (a composed resource)
         if t == "env":
             prev = h[i - 1].get("k", "") if i > 0 else ""
             nxt = h[i + 1].get("k", "") if i + 1 < len(h) else ""
             sig.add("env:%s:%s>%s" % (k, prev, nxt))
         elif t == "call":
-            if k == "get" and e.get("o") == "xr":
-                flush()
+            if k in ("get.xr", "get.pkg", "get.claim", "get.rev", "get.cm", "get.R") or \
+                    (k.startswith("get") and i > 0 and h[i - 1].get("t") in ("init", "env")):
+                flush()    # a reconcile starts
             if f not in ("ok", ""):
                 sig.add("%s:%s" % (k, f))
             block[k] = block.get(k, 0) + 1
+        elif t == "fault":
+            sig.add("fault:%s:%s" % (e.get("at", ""), f))
     flush()
     return sig
 
